@@ -123,7 +123,11 @@ func schedHeapMembership(c *Ctx) *RuleResult {
 		Doc: "an invocation stays in its parent's heap of queued children (of children with idle workers) as long as it has queued operations OR queued children of its own (idle workers OR children with idle workers): the 'remaining members' count given to heapRemoveOrFix for X.parent.<heap> mentions both X.<heap> and X's direct container (queuedOperations / idleSynchronizingWorkers)"}
 	p := c.P
 	rem := p.LookupFunc(schedPkg, "heapRemoveOrFix")
-	direct := map[string]string{"queuedChildren": "queuedOperations", "idleSynchronizingWorkersChildren": "idleSynchronizingWorkers"}
+	// keyed by the fields' current names (the anchors survive a rename of the fields)
+	direct := map[string]string{
+		p.LookupField(schedPkg, "invocation", "queuedChildren").Name():                   p.LookupField(schedPkg, "invocation", "queuedOperations").Name(),
+		p.LookupField(schedPkg, "invocation", "idleSynchronizingWorkersChildren").Name(): p.LookupField(schedPkg, "invocation", "idleSynchronizingWorkers").Name(),
+	}
 	for _, cs := range CallsTo(p.UnitsIn(schedPkg), rem) {
 		call := cs.Node.(*ast.CallExpr)
 		info := cs.Unit.Info()
